@@ -83,6 +83,22 @@ func runOSCase(c OSCase, b *Batch, res *Result) error {
 		stack = "hidden=" + strings.Join(c.Hidden, ",") + "|" + stack
 		hiddenSnap = hiddenPart(rc.Dump(""), c.Hidden)
 	}
+	// C15: a twin of the tree driven through the underlying filesystem alone; as long as every
+	// operation so far named only visible paths, results and trees must be identical
+	var twinRC *RealCase
+	var twinFS backupfs.FS
+	if c.Hidden != nil {
+		if t, terr := newRealCase(); terr == nil {
+			if t.Build("", c.Tree) == nil {
+				t.MarkStart()
+				twinRC = t
+				twinFS, _ = backupfs.NewPrefixFS(backupfs.NewOSFS(), t.Root)
+				defer t.Close()
+			} else {
+				t.Close()
+			}
+		}
+	}
 	tag := fmt.Sprintf("oscase#%d", res.Evaluations)
 	b.Add(tag, line("os.begin", itoa(c.Umask)), "ok")
 	for _, d := range []string{"/w", "/w/w", "/w/w/w"} {
@@ -126,6 +142,38 @@ func runOSCase(c OSCase, b *Batch, res *Result) error {
 		res.count("op." + op.K + "." + out[0])
 		if out[0] != "ok" && len(out) > 1 {
 			res.count("err." + out[1])
+		}
+		if twinRC != nil {
+			if !opVisible(c.Hidden, op) || route {
+				twinRC = nil // from here on the two trees may legitimately differ
+			} else {
+				tout := execOp(twinRC, twinFS, op)
+				res.count("hidden.twin.compared")
+				if op.K == "read" && len(tout) > 2 && tout[0] == "ok" && tout[1] == "names" {
+					// the one intended difference: listings omit hidden entries
+					dir := path.Clean(op.A[0])
+					kept := append([]string(nil), tout[:3]...)
+					for _, n := range tout[3:] {
+						hid := false
+						for _, hp := range c.Hidden {
+							if withinGo(path.Clean("/"+hp), path.Join(dir, n)) {
+								hid = true
+							}
+						}
+						if !hid {
+							kept = append(kept, n)
+						}
+					}
+					tout = kept
+				}
+				if strings.Join(out, "\x00") != strings.Join(tout, "\x00") {
+					res.violate(Violation{Property: "C15", What: fmt.Sprintf("%v names nothing hidden (hidden = %q) but returns %.200q through HiddenFS and %.200q on the underlying filesystem", op, c.Hidden, out, tout), Case: c})
+					twinRC = nil
+				} else if a, bb := blankDirTimes(rc.Dump("")), blankDirTimes(twinRC.Dump("")); !dumpEqual(a, bb) {
+					res.violate(Violation{Property: "C15", What: fmt.Sprintf("after %v (nothing hidden named, hidden = %q) the tree differs from the one driven through the underlying filesystem: %s", op, c.Hidden, dumpDiff(bb, a)), Case: c})
+					twinRC = nil
+				}
+			}
 		}
 		if c.Hidden != nil {
 			// a failure is attributed to the symlink-route finding only when this very operation's
@@ -327,6 +375,41 @@ func hiddenOracles(c *OSCase, op Op, out []string, dump []string, snap []string,
 		res.count("hidden.removeall.checked")
 	}
 	return snap
+}
+
+// opVisible: no path argument of the operation is hidden, below a hidden path, or (Rename,
+// RemoveAll: the operations HiddenFS deliberately treats differently, C11) an ancestor of one;
+// the lexical effective target of a Symlink is not hidden either.
+func opVisible(hidden []string, op Op) bool {
+	var names []string
+	switch op.K {
+	case "rename":
+		names = op.A[:2]
+	case "symlink":
+		t := op.A[0]
+		if !strings.HasPrefix(t, "/") {
+			t = path.Join(path.Dir(path.Clean("/"+op.A[1])), t)
+		}
+		names = []string{op.A[1], t}
+	default:
+		names = op.A[:1]
+	}
+	for _, n := range names {
+		if !strings.HasPrefix(n, "/") {
+			return false // relative names are judged against the process directory by filepath.Rel
+		}
+		cn := path.Clean(n)
+		for _, hp := range hidden {
+			chp := path.Clean("/" + hp)
+			if withinGo(chp, cn) {
+				return false
+			}
+			if (op.K == "rename" || op.K == "removeall") && withinGo(cn, chp) {
+				return false
+			}
+		}
+	}
+	return true
 }
 
 // opRouteHasLink: some component (the final one included) of one of the operation's path arguments
